@@ -66,6 +66,35 @@ drop_key(nosuch)
 `,
 }
 
+// failingScripts: runs that assign top-level variables named like everything the shared script reads and then fail inside a
+// branch / a loop body.  Mixed with the shared script's runs: what a failed run leaves in pooled interpreter objects must never
+// reach the run that takes the object next, on whatever goroutine.
+var failingScripts = []string{
+	"w = \"stale\"\nn = 99\nq = \"stale q\"\nu = \"st%20ale\"\njs = \"[9]\"\nok = true\nts = \"1999-01-01 00:00:00\"\nif true {\n  zz = 1 + nil\n}\n",
+	"w = \"stale\"\nword = \"stale\"\nxm = \"<a><b>stale</b></a>\"\ndt = 5\nl = [9]\nm = 1\nfor i = 0; i < 2; i = i + 1 {\n  zz = l[7]\n}\n",
+	"message = \"stale 1\"\nmatched = false\nx = 1\nj = 2\nfor v in [1, 2] {\n  if v == 2 {\n    zz = v + nil\n  }\n}\n",
+}
+
+// errPart: the error of a rendered run result
+func errPart(r string) string {
+	if i := strings.Index(r, " fields="); i >= 0 {
+		return r[:i]
+	}
+	return r
+}
+
+func loadFailing() ([]*plruntime.Script, error) {
+	var out []*plruntime.Script
+	for _, src := range failingScripts {
+		ok, errs := engine.ParseScript(map[string]string{"failing.p": src}, funcs.FuncsMap, funcs.FuncsCheckMap)
+		if len(errs) > 0 {
+			return nil, fmt.Errorf("failing script does not load: %v", errs)
+		}
+		out = append(out, ok["failing.p"])
+	}
+	return out, nil
+}
+
 var parseSources = []string{"x = 1 + 2 * 3\nif x { y = [1, {\"a\": x}] }", "for i = 0; i < 3; i = i + 1 { f(i) }", "x = (1 + ] 2", "a = \"abc", "-0x",
 	"grok(_, \"%{WORD:w}\")\nadd_key(k, w)", "x = a[1:2:3]\ny = b.c.d\nz = `q r`", ""}
 
@@ -215,6 +244,22 @@ func raceRun(args []string) (any, error) {
 	for _, m := range msgs {
 		want[m] = sharedRun(sc, m, nil)
 	}
+	failing, err := loadFailing()
+	if err != nil {
+		return nil, err
+	}
+	wantFail := make([]string, len(failing))
+	for i, f := range failing {
+		wantFail[i] = sharedRun(f, "abc 12", nil)
+		if !strings.HasPrefix(wantFail[i], "err=failing.p:") {
+			return nil, fmt.Errorf("failing script %d does not fail at run time: %s", i, wantFail[i])
+		}
+	}
+	for _, m := range msgs { // the sequential answers once more, now after failed runs
+		if got := sharedRun(sc, m, nil); got != want[m] {
+			sum.miss("race-after-failed-run:"+m, map[string]any{"message": m, "alone": want[m], "after_failed_runs": got})
+		}
+	}
 	for i, c := range cold {
 		if c.got != want[c.msg] {
 			sum.miss("race-cold-start:"+c.msg, map[string]any{"message": c.msg, "alone": want[c.msg], "at_cold_start": c.got, "goroutines": coldN})
@@ -245,7 +290,8 @@ func raceRun(args []string) (any, error) {
 		var mu sync.Mutex
 		start := make(chan struct{})
 		for i := 0; i < g; i++ {
-			kind := rng.Intn(3)
+			kind := rng.Intn(4)
+			fi := rng.Intn(len(failingScripts))
 			msg := msgs[rng.Intn(len(msgs))]
 			src := parseSources[rng.Intn(len(parseSources))]
 			fresh := rng.Intn(2) == 0
@@ -269,6 +315,16 @@ func raceRun(args []string) (any, error) {
 					parses++
 					parsed = append(parsed, [2]string{src, got})
 					loaded = append(loaded, loadedSet{set, gotL})
+					mu.Unlock()
+					return
+				}
+				if kind == 3 {
+					got := sharedRun(failing[fi], msg, nil)
+					mu.Lock()
+					runs++
+					if wf := strings.Replace(wantFail[fi], "abc 12", msg, -1); errPart(got) != errPart(wf) {
+						sum.miss("race-failing-result", map[string]any{"alone": wf, "concurrently": got, "goroutines": g})
+					}
 					mu.Unlock()
 					return
 				}
